@@ -162,6 +162,13 @@ def upsert_phase(chk, relevant, signature, schema="pk_idx_b", returning=False):
     return focus_phase(chk, relevant, signature, "Gen_Upsert.cfg", 6 if thorough else 5, 40000 if thorough else 4000, schema=schema, key=key)
 
 
+def bad_phase(chk, relevant, signature, schema="pk_idx_b"):
+    """statements that are wrong in themselves (BSpec of MC_Relational.tla, Gen_Bad.cfg)"""
+    thorough = chk.tier == "thorough"
+    key = lambda c: (R.opname(c["hist"][-1]["op"]), tuple(R.opname(h["op"]) for h in c["hist"][2:-1]), len(c["hist"][-1]["rows"]))
+    return focus_phase(chk, relevant, signature, "Gen_Bad.cfg", 6 if thorough else 5, 30000 if thorough else 3000, schema=schema, key=key)
+
+
 def returning_phase(chk, relevant, signature, max_ops=3, sample=2500, with_txn=False, schema="pk"):
     """C05: the same behaviours with the LAST statement issued as INSERT / UPDATE / DELETE ... RETURNING id, a, b; the
     returned rows must be the model's `ret` (inserted rows, new images, deleted rows) and everything else as before."""
